@@ -59,6 +59,22 @@ func buildC16(tier string, seed int64) *Family {
 	}
 	rx("matches with a pattern that does not compile", "matches", "matches('#S1', '(')", map[string]string{"pattern": "("})
 	rx("replace with a pattern that does not compile", "replace", "replace('#S1', '[', '#S3')", map[string]string{"pattern": "["})
+	// patterns and subjects taken from the document (concrete pool values, so Go's regexp is
+	// evaluated natively on both sides): the pattern may differ from candidate to candidate
+	rcfg := docCfg{N: 3, A: 1, Names: "a,b", Pool: ",1,x,1x"}
+	if tier == "thorough" {
+		rcfg = docCfg{N: 4, A: 1, Names: "a,b", Pool: ",1,x,1x,(1)"}
+	}
+	for _, x := range []string{"//*[matches(., string(@a))]", "//*[matches('1x', string(.))]", "//*[matches(@a, '^1')]", "//*[matches(a, string(@a))]", "//*[not(matches(., 'x'))]"} {
+		in := nodesetInst(x, rcfg)
+		in.ID = "regexp over nodes: " + in.ID
+		insts = append(insts, in)
+	}
+	for _, x := range []string{"matches(a, string(@a))", "matches('1x1', string(a))", "replace(a, @a, 'y')", "replace('1x1', a, '[$0]')", "replace(a, '(1)', '$1$1')", "matches(*, '1$')"} {
+		in := valueInst(x, rcfg)
+		in.ID = "regexp over nodes: " + in.ID
+		insts = append(insts, in)
+	}
 	can := &vm.Instance{ID: "canary cache with a loader returning a foreign value", Harness: "H_cache", Params: map[string]string{"canary": "1"}}
 	return &Family{
 		Instances: insts,
